@@ -1,4 +1,5 @@
 import BSModel.Proofs.Formatter
+import BSModel.Proofs.FormatterBuild
 import BSModel.Gen.Formatter
 /-! # C15 — formatter options take effect and output is deterministic
 
@@ -513,5 +514,92 @@ example : reSub BS.Gen.htmlAlts.reverse [60, 233, 38, 8807, 824, 8807, 120] = of
 /-- without the look-ahead the order would matter: a two-alternative table that is not exclusive -/
 example : reSub [⟨[8807], [], [65]⟩, ⟨[8807, 824], [], [66]⟩] [8807, 824] ≠ reSub [⟨[8807, 824], [], [66]⟩, ⟨[8807], [], [65]⟩] [8807, 824] := by
   decide
+
+/-! ## from the parse to the bytes: output is a function of the tree and the configuration
+
+    `RawNode` is what html.parser reports (names, `(key, value)` pairs in source order, strings); `build b` is the element
+    `handle_starttag` + `Tag.__init__` make under the builder configuration `b`. -/
+
+/-- The set- and dict-typed configuration of a builder (`empty_element_tags`, `preserve_whitespace_tags`,
+    `cdata_list_attributes` and the sets in it) is consulted only through membership and key lookup: two configurations that
+    denote the same sets and the same mapping build literally the same tree from every parse. -/
+theorem builder_sets_are_sets (b b' : BuilderCfg) (h : BuilderEquiv b b') (t : RawNode) : build b t = build b' t :=
+  build_equiv b b' h t
+
+/-- In particular any other listing order of those sets and of the dict's entries (what another hash seed, or another way
+    of writing the same literal, gives). -/
+theorem builder_listing_order_irrelevant (b : BuilderCfg) (e' : Option (List PStr)) (p' : List PStr)
+    (c' : List (PStr × List PStr))
+    (he : match b.emptyElementTags, e' with | none, none => True | some s, some s' => s'.Perm s | _, _ => False)
+    (hp : p'.Perm b.preserveWhitespaceTags) (hc : c'.Perm b.cdataListAttributes)
+    (hn : (b.cdataListAttributes.map (·.1)).Nodup) (t : RawNode) :
+    build { b with emptyElementTags := e', preserveWhitespaceTags := p', cdataListAttributes := c' } t = build b t :=
+  build_equiv _ _ (builderEquiv_of_perm b e' p' c' he hp hc hn) t
+
+/-- the HTML builder's configuration as far as the examples need it: void `br`, preserved `pre`, `class` multi-valued -/
+def htmlish : BuilderCfg :=
+  { emptyElementTags := some [[98, 114], [104, 114]], preserveWhitespaceTags := [[112, 114, 101], [116, 101, 120, 116, 97, 114, 101, 97]],
+    cdataListAttributes := [([42], [[99, 108, 97, 115, 115]]), ([116, 100], [[104, 101, 97, 100, 101, 114, 115]])], onDuplicate := .replace }
+
+/-- the same configuration written in another order -/
+def htmlish' : BuilderCfg :=
+  { htmlish with emptyElementTags := some [[104, 114], [98, 114]], preserveWhitespaceTags := htmlish.preserveWhitespaceTags, cdataListAttributes := htmlish.cdataListAttributes.reverse }
+
+example : build htmlish'
+      (.tag [98, 114] [([99, 108, 97, 115, 115], some [97, 32, 32, 98])] [])
+    = build htmlish (.tag [98, 114] [([99, 108, 97, 115, 115], some [97, 32, 32, 98])] []) :=
+  builder_listing_order_irrelevant htmlish _ _ _ (List.Perm.swap _ _ _) (List.Perm.refl _) (List.reverse_perm _) (by decide) _
+
+example : render (mkHTMLFormatter {}) builtin none
+      (build htmlish (.tag [98, 114] [([99, 108, 97, 115, 115], some [97, 32, 32, 98]), ([105, 100], none), ([105, 100], some [120])] []))
+    = ofS "<br class=\"a b\" id=\"x\"/>" := by decide +kernel
+
+/-- A start tag that does not repeat a key: the attribute dict is the source list (a missing value read as `""`), in source
+    order, whatever `on_duplicate_attribute` says. -/
+theorem duplicate_free_start_tag (od : OnDup) (as : List (PStr × Option PStr)) (h : (as.map (·.1)).Nodup) :
+    attrDict od as = as.map (fun e => (e.1, e.2.getD [])) := attrDict_nodup od as h
+
+example : attrDict .replace [([97], some [49]), ([98], none), ([97], some [50])] = [([97], [50]), ([98], [])] ∧
+    attrDict .ignore [([97], some [49]), ([98], none), ([97], some [50])] = [([97], [49]), ([98], [])] := by decide
+
+/-- Attribute order from the source to the output: two parses that differ only in the order in which start tags list their
+    (distinct) attributes — at any depth — give the same output from every output method, under every builder configuration
+    and formatter. (With a repeated key the order is content: it decides which value survives.) -/
+theorem source_attr_order_irrelevant (b : BuilderCfg) (c : Cfg) (i : Subst → PStr → PStr) (m : Mode) (par : Option PStr)
+    (t t' : RawNode) (h : SameUpToAttrOrder t t') :
+    renderMode c i m par (build b t) = renderMode c i m par (build b t') := by
+  rw [← renderMode_canon c i m par (build b t), ← renderMode_canon c i m par (build b t'), canon_build_same b t t' h]
+
+example : SameUpToAttrOrder
+    (.tag [112] [([98], some [49]), ([97], none)] [.tag [105] [([120], none), ([121], none)] [], .str .text [116]])
+    (.tag [112] [([97], none), ([98], some [49])] [.tag [105] [([121], none), ([120], none)] [], .str .text [116]]) :=
+  .tag _ _ _ _ _ (List.Perm.swap _ _ _) (by decide)
+    (.cons _ _ _ _ (.tag _ _ _ _ _ (List.Perm.swap _ _ _) (by decide) .nil) (.cons _ _ _ _ (.str _ _) .nil))
+
+/-- **Output is a function of the tree and the configuration.** For every parse, every output method and every
+    interpretation of the user functions: the listing order of the entity regex's alternatives (`"|".join(set)`), of the
+    formatter's `cdata_containing_tags`, of the builder's sets and dict, and of the attributes within start tags does not
+    reach the output. Everything else the output is computed from is an argument of `renderMode`/`build`. -/
+theorem output_is_function_of_tree_and_configuration
+    (alts' : List Alt) (hp : alts'.Perm BS.Gen.htmlAlts)
+    (b b' : BuilderCfg) (hb : BuilderEquiv b b')
+    (c : Cfg) (cd' : List PStr) (hcd : SetEq cd' c.cdata_containing_tags)
+    (i : Subst → PStr → PStr) (m : Mode) (par : Option PStr) (t t' : RawNode) (ht : SameUpToAttrOrder t t') :
+    renderMode { c with cdata_containing_tags := cd' } (withHtml alts' i) m par (build b t)
+      = renderMode c (withHtml BS.Gen.htmlAlts i) m par (build b' t') := by
+  have hf : FmtEquiv { c with cdata_containing_tags := cd' } (withHtml alts' i) c (withHtml BS.Gen.htmlAlts i) :=
+    { es := rfl, vecp := rfl, eab := rfl, indent := rfl, cdata := hcd,
+      interp := fun x => by
+        unfold withHtml
+        split
+        · exact regex_order_irrelevant alts' hp x
+        · rfl }
+  rw [renderMode_fmtEquiv hf, build_equiv b b' hb t, source_attr_order_irrelevant b' c _ m par t t' ht]
+
+example : renderMode { mkHTMLFormatter { entity_substitution := .html } with cdata_containing_tags := [STYLE, SCRIPT] }
+      (withHtml BS.Gen.htmlAlts.reverse builtin) (.pretty 0) none
+      (build { htmlish with preserveWhitespaceTags := htmlish.preserveWhitespaceTags.reverse }
+        (.tag [112] [([98], some [233]), ([97], none)] [.tag [98, 114] [] [], .str .text [8807, 824]]))
+    = .ok (ofS "<p a=\"\" b=\"&eacute;\">\n <br/>\n &ngeqq;\n</p>\n") := by decide +kernel
 
 end BS.Props.C15
